@@ -133,7 +133,11 @@ def gen(seed, idx, tier):
     elif cls == "bad-polygon":
         defect["poly"] = rnd.choice(["bowtie", "two-points", "hole-bowtie"])
     elif cls == "bad-device":
-        defect["dev"] = rnd.choice(["dup-terminal", "unnamed-terminal", "dup-hole", "probe-outside", "probe-shape"])
+        defect["dev"] = rnd.choice(["dup-terminal", "unnamed-terminal", "dup-hole", "probe-outside", "probe-shape", "probe-in-hole", "probe-in-hole"])
+        if defect["dev"] == "probe-in-hole":
+            defect["n_holes"] = rnd.choice([1, 2, 3])
+            defect["which"] = rnd.randrange(defect["n_holes"])
+            defect["inset"] = rnd.choice([0.25, 0.1, 0.01])  # distance of the probe from the hole's edge, in xi
     scn["defect"] = defect
     out = None
     pre = {}
@@ -168,6 +172,12 @@ def apply_structural_defect(scn):
             dev["probes"] = [[0.0, 0.0], [100.0, 0.0]]
         elif d["dev"] == "probe-shape":
             dev["probes"] = [[0.0, 0.0, 1.0], [0.5, 0.0, 1.0]]
+        elif d["dev"] == "probe-in-hole":
+            # a voltage probe inside one of several holes (not necessarily the last one defined)
+            cx = [-0.9, 0.0, 0.9][: d["n_holes"]]
+            dev["holes"] = [{"kind": "ellipse", "a": 0.25, "b": 0.25, "npts": 12, "c": [c, 0.0], "name": f"h{i}"} for i, c in enumerate(cx)]
+            dev["terminals"] = []
+            dev["probes"] = [[cx[d["which"]] + 0.25 - d["inset"], 0.0], [0.45, 0.6]]
 
 
 def run(scn):
@@ -228,7 +238,7 @@ def run(scn):
         h.probe("class:" + d["class"])
         if h.exc:
             h.probe("rejected-by:" + h.exc[0])
-        res = base.summarize(scn, h, Vd, True, (d["class"], d.get("option"), d.get("phase"), d.get("rel"), d.get("window_frac"), d.get("excess"), d.get("poly"), d.get("dev"), d.get("seed_change"), d.get("shape"), h.outcome.split(":")[0], h.exc[0] if h.exc else None, scn["observer"]["output"] is None))
+        res = base.summarize(scn, h, Vd, True, (d["class"], d.get("option"), d.get("phase"), d.get("rel"), d.get("window_frac"), d.get("excess"), d.get("poly"), d.get("dev"), d.get("n_holes"), d.get("which"), d.get("inset"), d.get("seed_change"), d.get("shape"), h.outcome.split(":")[0], h.exc[0] if h.exc else None, scn["observer"]["output"] is None))
         return res
     finally:
         for s in sims:
